@@ -24,6 +24,8 @@ type sQuery struct {
 	Fields    []string // plain fields (no calls)
 	Call      string   // aggregate function ("" = plain select)
 	CallField string
+	Call2     string // optional second call in the same statement
+	CallField2 string
 	TMin      int64
 	TMax      int64
 	Desc      bool
@@ -39,6 +41,9 @@ func (q *sQuery) text() string {
 	var sel []string
 	if q.Call != "" {
 		sel = append(sel, fmt.Sprintf("%s(%s)", q.Call, q.CallField))
+		if q.Call2 != "" {
+			sel = append(sel, fmt.Sprintf("%s(%s)", q.Call2, q.CallField2))
+		}
 	} else {
 		sel = append(sel, q.Fields...)
 	}
